@@ -20,6 +20,9 @@ type Mutant struct {
 	Old  string `json:"old"`
 	New  string `json:"new"`
 	Desc string `json:"desc"`
+	// More holds further search/replace pairs in the same file (for edits that
+	// need a declaration and a use); each pattern must occur exactly once.
+	More [][2]string `json:"more,omitempty"`
 }
 
 // MutantResult is recorded in the evidence of the thorough tier.
@@ -77,7 +80,15 @@ func runMutants(prop, repo, out string) MutantResult {
 			dir := filepath.Join(tmp, fmt.Sprintf("m%d", i))
 			_ = os.MkdirAll(dir, 0o755)
 			repl := filepath.Join(dir, "file.go")
-			_ = os.WriteFile(repl, []byte(strings.Replace(string(src), m.Old, m.New, 1)), 0o644)
+			text0 := strings.Replace(string(src), m.Old, m.New, 1)
+			for _, e := range m.More {
+				if strings.Count(text0, e[0]) != 1 {
+					outs[i] = outcome{m, "skipped", "secondary pattern does not occur exactly once in " + m.File}
+					return
+				}
+				text0 = strings.Replace(text0, e[0], e[1], 1)
+			}
+			_ = os.WriteFile(repl, []byte(text0), 0o644)
 			ov, _ := json.Marshal(map[string]string{m.File: repl})
 			ovf := filepath.Join(dir, "overlay.json")
 			_ = os.WriteFile(ovf, ov, 0o644)
